@@ -9,7 +9,7 @@ U = Fraction(1, 2 ** 53)
 
 
 def knot_seq(rng, n):
-    style = rng.choice(["monotone", "oscillating", "plateau", "collinear", "nearly_collinear", "uneven", "offset", "random", "zigzag", "gentle"])
+    style = rng.choice(["monotone", "oscillating", "plateau", "collinear", "nearly_collinear", "uneven", "offset", "random", "zigzag", "gentle", "huge"])
     xs = []
     x = rng.choice([0.0, rng.uniform(-2, 2)])
     if style == "offset":
@@ -24,6 +24,19 @@ def knot_seq(rng, n):
         else:
             x += rng.uniform(0.2, 2.0) if rng.random() < 0.7 else float(rng.randint(1, 3))
         xs.append(x)
+    if style == "huge":
+        # ordinates near the top of the binary64 range over wide intervals: every term of the documented construction stays
+        # finite (slopes ~1e297) while 2*dy or 3*dy would not
+        x = 0.0
+        xs = []
+        for i in range(n):
+            x += rng.choice([1e10, 2e10, 5e9])
+            xs.append(x)
+        ys = [rng.choice([1e300, -1e300, 3e300, 0.0, 2e299]) for _ in xs]
+        big = rng.choice([6.5e307, 8e307, 1.1e308, 4e307])
+        j = rng.choice([0, 0, n - 1, n - 1, rng.randint(0, n - 1)])
+        ys[j] = rng.choice([-1.0, 1.0]) * big
+        return style, [[C.bits(a), C.bits(b)] for a, b in zip(xs, ys)]
     ys = []
     y = rng.uniform(-3, 3)
     s_lin = rng.choice([0.5, -2.0, 1.0 / 3.0, 1e-8, 3.0])
@@ -80,6 +93,40 @@ def kruger_exact(ks):
     return s, f, polys
 
 
+def spline_float(ks):
+    """the construction as documented (Kruger 7a-7c and the segment formulas), evaluated in binary64 without fused operations:
+    returns the list of coefficient quadruples, used only to decide whether every term of the construction is finite"""
+    n = len(ks)
+    X = [k[0] for k in ks]
+    Y = [k[1] for k in ks]
+    inf = float("inf")
+
+    def div(a, b):
+        if b == 0:
+            return float("nan") if (a == 0 or a != a) else math.copysign(inf, a) * math.copysign(1.0, b)
+        return a / b
+    s = [div(Y[i + 1] - Y[i], X[i + 1] - X[i]) for i in range(n - 1)]
+    f = [0.0] * n
+    for j in range(1, n - 1):
+        f[j] = 0.0 if s[j - 1] * s[j] <= 0.0 else div(2.0, div(1.0, s[j - 1]) + div(1.0, s[j]))
+    f[0] = div(1.5 * (Y[1] - Y[0]), X[1] - X[0]) - 0.5 * f[1]
+    f[n - 1] = div(1.5 * (Y[n - 1] - Y[n - 2]), X[n - 1] - X[n - 2]) - 0.5 * f[n - 2]
+    out = []
+    for i in range(n - 1):
+        x0, y0, x1, y1 = X[i], Y[i], X[i + 1], Y[i + 1]
+        dx = x1 - x0
+        sl = div(y1 - y0, dx)
+        x0x0 = x0 * x0
+        a0 = div(2.0 * (3.0 * sl - (f[i + 1] + 2.0 * f[i])), dx)
+        a1 = div(2.0 * ((2.0 * f[i + 1] + f[i]) - 3.0 * sl), dx)
+        d = div((1.0 / 6.0) * (a1 - a0), dx)
+        c = div(0.5 * (x1 * a0 - x0 * a1), dx)
+        b = sl - c * (x1 + x0) - d * (x1 * x1 + x1 * x0 + x0x0)
+        a = y0 - b * x0 - c * x0x0 - d * x0x0 * x0
+        out.append([a, b, c, d])
+    return out
+
+
 def pv(p, x):
     return p[0] + x * (p[1] + x * (p[2] + x * p[3]))
 
@@ -95,7 +142,8 @@ class P(Prop):
                 "C04_coefficient_float", "C04_cubic_deviation", "C04_interpolation_float"]
     KERNELS = ["spline::f_dx", "spline::segment", "spline::f_x0", "spline::f_xn"]
     RULE = ("constrained_spline on 3..12 (thorough ..100) knots with strictly increasing x: monotone, oscillating, zig-zag, plateaued, "
-            "collinear, nearly collinear, unevenly spaced (gap ratios up to 2^12), offset up to 2^20, gentle slopes (~1e-8); "
+            "collinear, nearly collinear, unevenly spaced (gap ratios up to 2^12), offset up to 2^20, gentle slopes (~1e-8), ordinates up to 1.1e308 over wide intervals "
+            "(non-finite output is a violation when the documented construction is finite in binary64); "
             "bit-exact model vs crate incl. the kernels f_dx / segment on their own; exact-rational oracle: end verbatim, "
             "interpolation, knot slopes = harmonic mean / end rule, derivative continuity, all within 256*2^-53*(magnitudes*"
             "(1+|x|/dx)^3). non-trivial = >= 4 knots and data not collinear; distinct by input")
@@ -147,6 +195,12 @@ class P(Prop):
             return "constrained_spline returned %d cubics for %d knots" % (r[0], len(ks))
         segs = [r[1 + 5 * i: 6 + 5 * i] for i in range(r[0])]
         if not all(finite(b) for sg in segs for b in sg):
+            # non-finite coefficients are a violation exactly when every term of the documented construction is finite
+            ref = spline_float([(C.fl(k[0]), C.fl(k[1])) for k in ks])
+            for i, sg in enumerate(segs):
+                if not all(finite(b) for b in sg) and all(math.isfinite(v) for v in ref[i]):
+                    return ("cubic %d has non-finite coefficients %s although every term of the documented construction is finite "
+                            "(it gives %s): the cubic passes through neither knot" % (i, [C.fl(b) for b in sg[1:]], ref[i]))
             return None
         kq = [(fr(k[0]), fr(k[1])) for k in ks]
         s, f, polys = kruger_exact(kq)
